@@ -99,3 +99,43 @@ C[MB + 'apply_static_mods@residues'] = dict(
         5: [('no-terminal-rules', 'same(new_annotation, new_annotation_at5) and forall(lambda r=str: not (r in cterm_mods))')],
     },
 )
+
+# ---------------------------------------------------------------- the static builder, N-terminal rules only (C13: "... every residue (or terminus) matched by the rule")
+MACROS['but_nterm_same'] = (['a', 'b'], ' and '.join('same(a.%s, b.%s)' % (f, f) for f in RECORDS['Annotation'] if f != '_nterm_mods'))
+MACROS['but_cterm_same'] = (['a', 'b'], ' and '.join('same(a.%s, b.%s)' % (f, f) for f in RECORDS['Annotation'] if f != '_cterm_mods'))
+for _t, _pos in (('nterm', '0'), ('cterm', 'len(sequence._sequence) - 1')):
+    C[PA + 'add_%s_mods' % _t] = dict(
+        params=dict(self='Annotation', mods='ModList', append='bool'), returns='None', mutates=['self'], trusted=True,
+        bounded_by='terminal stores: bounded/C20.py, bounded/C13.py', raises={},
+        ensures=[('terminus-modified', 'self_final._%s_mods is not None' % _t), ('nothing-else', 'but_%s_same(self_final, self)' % _t)])
+    _RULES = '%s_mods' % _t
+    _HIT = ('exists(lambda r=str: (r in RULES0) and (True if fix_list_of_mods(RULES0[r]) else False) and '
+            'count(get_regex_match_indices(sequence._sequence, r, -1), %s) > 0)' % _pos)
+    _HITSEEN = ('exists(lambda r=str: (r in _seenL) and count(get_regex_match_indices(sequence._sequence, r, -1), %s) > 0)' % _pos)
+    _lo, _li = (2, 3) if _t == 'nterm' else (4, 5)
+    _inv = {o: [('nothing-yet', 'same(new_annotation, new_annotation_at%d)' % o)] for o in range(6)}
+    _inv[0] = [('no-residue-rules', 'same(new_annotation, sequence) and forall(lambda r=str: not (r in internal_mods))')]
+    _inv[1] = [('no-residue-rules', 'same(new_annotation, sequence) and forall(lambda r=str: not (r in internal_mods))')]
+    for o in ((2, 3) if _t == 'cterm' else (4, 5)):
+        _inv[o] = [('no-rules-for-the-other-terminus', 'same(new_annotation, new_annotation_at%d) and forall(lambda r=str: not (r in %s))'
+                    % (o, 'nterm_mods' if _t == 'cterm' else 'cterm_mods'))]
+    _body = [('rest', 'but_%s_same(new_annotation, sequence)' % _t),
+             ('untouched-unless-a-seen-rule-hits', 'implies(not (' + _HITSEEN.replace('_seenL', '_seen%d' % _lo) + ' %s), same(new_annotation._%s_mods, sequence._%s_mods))'),
+             ('skip', "implies(mode == 'skip' and sequence._%s_mods is not None, same(new_annotation._%s_mods, sequence._%s_mods))" % (_t, _t, _t)),
+             ('modified-once-a-seen-rule-hits', 'implies(' + _HITSEEN.replace('_seenL', '_seen%d' % _lo) + ' %s, new_annotation._%s_mods is not None)'),
+             ('existing-stays', 'implies(sequence._%s_mods is not None, new_annotation._%s_mods is not None)' % (_t, _t))]
+    _inv[_lo] = [(l, (x % ('', _t, _t) if x.count('%s') == 3 else (x % ('', _t) if x.count('%s') == 2 else x))) for l, x in _body]
+    _inner_extra = 'or count(_done%d, %s) > 0' % (_li, _pos)
+    _inv[_li] = [(l, (x % (_inner_extra, _t, _t) if x.count('%s') == 3 else (x % (_inner_extra, _t) if x.count('%s') == 2 else x))) for l, x in _body]
+    C[MB + 'apply_static_mods@' + _t] = dict(
+        params=dict(sequence='Annotation', internal_mods='None', nterm_mods=('Dict[str,ModList]' if _t == 'nterm' else 'None'),
+                    cterm_mods=('Dict[str,ModList]' if _t == 'cterm' else 'None'), mode='str', return_type='str'),
+        specialize=dict(return_type='annotation'), returns='Annotation', pure=True, callee_tag=_t,
+        locals=dict(internal_mods='Dict[str,ModList]', nterm_mods='Dict[str,ModList]', cterm_mods='Dict[str,ModList]'),
+        ghost=dict(RULES0=_RULES),
+        raises={'ValueError': "mode != 'skip' and mode != 'append' and mode != 'overwrite'"}, raises_inexact=True,
+        ensures=[('everything-but-this-terminus-kept', 'but_%s_same(result, sequence)' % _t),
+                 ('terminus-untouched-unless-a-rule-matches-it', 'implies(not ' + _HIT + ', same(result._%s_mods, sequence._%s_mods))' % (_t, _t)),
+                 ('skip-mode-keeps-an-existing-terminal-modification', "implies(mode == 'skip' and sequence._%s_mods is not None, same(result._%s_mods, sequence._%s_mods))" % (_t, _t, _t)),
+                 ('a-matched-terminus-is-modified', 'implies(' + _HIT + ', result._%s_mods is not None)' % _t)],
+        invariants=_inv)
